@@ -29,6 +29,8 @@ type e2e struct {
 	answer []byte // result object for the next request
 	gotReq []byte
 	salt   int64
+	// packForm > 0: answers go out gzip-packed in form packForm-1 (rpcsrv.GzipForm)
+	packForm int
 }
 
 func (x *e2e) connect() {
@@ -38,6 +40,9 @@ func (x *e2e) connect() {
 	x.salt = 1000 + x.salt
 	x.srv.OnRequest = func(msgID int64, body []byte) []byte {
 		x.gotReq = append([]byte{}, body...)
+		if x.packForm > 0 {
+			return rpcsrv.GzipForm(x.answer, x.packForm-1)
+		}
 		return x.answer
 	}
 	x.net.Servers[sess.Addr] = x.srv
@@ -213,6 +218,11 @@ func runMethods(run *vr.Run, c *checker) {
 		}
 		calls++
 		x.call(m, pe, d, vals[0], wires[0], kind, 0, true)
+		// the answer gzip-packed, in one of the three legal stream forms (one piece, flushed pieces, two members)
+		calls++
+		x.packForm = 1 + called%3
+		x.call(m, pe, d, vals[len(vals)-1], wires[len(vals)-1], kind+"|gzip-packed", len(vals)-1, false)
+		x.packForm = 0
 		x.overlap(m, pe, wires[0])
 	}
 	run.Set("methods_called", called)
@@ -231,6 +241,9 @@ func (x *e2e) paramsEntry(method string) *tlx.Entry {
 
 func (x *e2e) call(m reflect.Method, pe *tlx.Entry, d *tlschema.Def, wantVal reflect.Value, wire []byte, kind string, ai int, reject bool) {
 	id := fmt.Sprintf("method|%s|answer#%d", m.Name, ai)
+	if x.packForm > 0 {
+		id += fmt.Sprintf("|gzip-form%d", x.packForm-1)
+	}
 	if reject {
 		// the server's salt changes just before this request arrives: the request is rejected with
 		// bad_server_salt and the client sends it again by itself; the caller must notice nothing
